@@ -414,7 +414,8 @@ fn skeleton_stmt(v: &Value) -> Value {
             "VLeaf" => json!({"k": "leaf", "v": m["variant"], "b": e, "e": []}),
             "Logger" => json!({"k": "leaf", "v": "log", "b": e, "e": []}),
             "Loop" => json!({"k": "while", "v": "-", "b": skeleton(&m["do"]), "e": e}),
-            "Branch" if m["else_body"] == json!("None") => json!({"k": "if", "v": "-", "b": skeleton(&m["if_body"]), "e": e}),
+            // an absent optional child may be spelled as None or left out: both mean "no else"
+            "Branch" if m.get("else_body").map(|x| *x == json!("None")).unwrap_or(true) => json!({"k": "if", "v": "-", "b": skeleton(&m["if_body"]), "e": e}),
             "Branch" => json!({"k": "ifelse", "v": "-", "b": skeleton(&m["if_body"]), "e": skeleton(&m["else_body"])}),
             "Scope" => json!({"k": "scope", "v": "-", "b": skeleton(&m["body"]), "e": e}),
             other => json!({"k": "unknown", "v": other, "b": e, "e": []}),
